@@ -55,6 +55,9 @@ type Frame struct {
 	safetyOn bool
 	entryReach string
 	hdrPhis map[*ssa.BasicBlock]map[*ssa.Phi]Val
+	// atentry(E) in loop invariants: the state (and the entry values of the header phis) in which each loop is entered
+	loopEntry map[*ssa.BasicBlock]*loopEntryCtx
+	curLoop   *ssa.BasicBlock // header of the loop whose invariant is being evaluated
 	callerFrame *Frame
 	panicPaths []string
 	prefixOverride string
@@ -539,6 +542,12 @@ func (f *Frame) enterBlock(b *ssa.BasicBlock, entryState *State, entryReach stri
 		}
 		entryPhis[phi] = f.mergePhi(phi, b, preds, conds)
 	}
+	if f.loopEntry == nil {
+		f.loopEntry = map[*ssa.BasicBlock]*loopEntryCtx{}
+	}
+	f.loopEntry[b] = &loopEntryCtx{st: st, phis: entryPhis}
+	f.curLoop = b
+	defer func() { f.curLoop = nil }()
 	for _, inv := range li.invs {
 		f.hdrPhis[b] = entryPhis
 		t := f.evalClauseAt(inv, b, st, nil)
@@ -548,6 +557,65 @@ func (f *Frame) enterBlock(b *ssa.BasicBlock, entryState *State, entryReach stri
 	delete(f.hdrPhis, b)
 	// 2. havoc
 	ls := c.loopState(st, mod, all, roots)
+	// returned(NAME) for calls inside this loop: what an earlier iteration's call returned is unknown at the head
+	if f.callerFrame == nil {
+		for lb := range li.body {
+			for _, in := range lb.Instrs {
+				ci, ok := in.(ssa.CallInstruction)
+				if !ok || ci.Value() == nil {
+					continue
+				}
+				n := callHistName(ci.Common())
+				if n == "" || c.loopHistDone[loopHistKey{b, n}] {
+					continue
+				}
+				if c.loopHistDone == nil {
+					c.loopHistDone = map[loopHistKey]bool{}
+				}
+				c.loopHistDone[loopHistKey{b, n}] = true
+				if c.callHist == nil {
+					c.callHist = map[string][]callRec{}
+				}
+				rt := ci.Value().Type()
+				uv := f.freshVal(rt, fmt.Sprintf("%sret_%s_L%d", f.prefixSym(), sanitize(n), li.ordinal))
+				c.callHist[n] = append(c.callHist[n], callRec{cond: re, val: uv})
+			}
+		}
+	}
+	// local allocations that never escape and that the loop body itself never stores to keep their contents: the
+	// unknown code the body calls cannot reach them
+	if len(c.localObjs) > 0 {
+		written := map[ssa.Value]bool{}
+		for lb := range li.body {
+			for _, in := range lb.Instrs {
+				switch x := in.(type) {
+				case *ssa.Store:
+					if r := storeRoot(x.Addr); r != nil {
+						written[r] = true
+					}
+				case *ssa.MapUpdate:
+					written[x.Map] = true
+				case *ssa.Call:
+					if b, isB := x.Call.Value.(*ssa.Builtin); isB && (b.Name() == "delete" || b.Name() == "clear") && len(x.Call.Args) > 0 {
+						written[x.Call.Args[0]] = true
+					}
+				}
+			}
+		}
+		for _, lo := range c.localObjs {
+			if lo.alloc == nil || written[lo.alloc] {
+				continue
+			}
+			if in, ok := lo.alloc.(ssa.Instruction); ok && in.Block() != nil && li.body[in.Block()] {
+				continue // allocated inside the loop
+			}
+			for _, k := range lo.keys {
+				if all || mod[k.Name] {
+					ls = ls.set(k, fmt.Sprintf("(store %s %s (select %s %s))", ls.get(k), lo.ref, st.get(k), lo.ref))
+				}
+			}
+		}
+	}
 	hv := map[*ssa.Phi]Val{}
 	var tinv []string
 	for _, in := range b.Instrs {
@@ -645,6 +713,16 @@ func (f *Frame) enterBlock(b *ssa.BasicBlock, entryState *State, entryReach stri
 	hre := c.define(fmt.Sprintf("%sb%d_h", f.prefixSym(), b.Index), "Bool", and(append(append([]string{re}, tinv...), invTerms...)...))
 	f.in[b] = ls
 	f.reach[b] = hre
+}
+
+type loopHistKey struct {
+	b *ssa.BasicBlock
+	n string
+}
+
+type loopEntryCtx struct {
+	st   *State
+	phis map[*ssa.Phi]Val
 }
 
 func phiName(p *ssa.Phi) string {
@@ -1001,7 +1079,9 @@ func (f *Frame) checkBackEdge(cur *blockCur, b *ssa.BasicBlock, li *loopInfo) {
 	}
 	for _, inv := range li.invs {
 		f.hdrPhis[h] = phis
+		f.curLoop = h
 		t := f.evalClauseAt(inv, h, cur.st, nil)
+		f.curLoop = nil
 		delete(f.hdrPhis, h)
 		f.c.addObligation(&Obligation{Name: f.oblName("inv-pres", fmt.Sprintf("loop%d:%s", li.ordinal, clauseLabel(inv))), Class: "invariant-pres",
 			Props: f.clauseProps(inv), Guard: guard, Goal: t, Src: inv.Text})
